@@ -550,7 +550,11 @@ class UnionProvider(LoaderProvider, DumperProvider):
 
     def _make_dumper(self, norm: BaseNormType, dumpers: Iterable[Dumper]) -> Dumper:
         dumper_type_dispatcher = ClassDispatcher(
-            {type(None) if case.origin is None else case.origin: dumper for case, dumper in zip(norm.args, dumpers)},
+            {
+                # `Any` is a class since Python 3.11, but it is in no value's MRO: its case takes any object
+                type(None) if case.origin is None else object if case.origin is Any else case.origin: dumper
+                for case, dumper in zip(norm.args, dumpers)
+            },
         )
 
         literal_dumper = self._get_dumper_for_literal(norm, dumpers, dumper_type_dispatcher)
